@@ -361,7 +361,7 @@ def one_sequence(acc, ctl, shim, base, ops, dirs, cid, with_subprocess, with_for
     #     sequences additionally a forked child that really dies by os._exit at the same boundary; both must agree.
     for b in range(nb):
         i = op_of[b]          # op in flight (-1 = constructor)
-        if i < kill_from_op:
+        if kill_from_op and i < kill_from_op:
             continue          # (a long journal is built first: only the operations of interest are crash-tested)
         nontrivial = i >= 0 and i < len(ops) and changing[i]
         path = fresh(base, "e.db")
